@@ -2,7 +2,7 @@
    count (including 0 and counts whose last huge frame / tree is partial), and the accounting of
    `lower_stats` agrees with the ownership state under the invariant. *)
 From Coq Require Import PeanoNat ZArith ZifyN ZifyBool.
-From LLF Require Import Base BitLemmas Row RowProofs Bitfield Lower Spec AbsLemmas BitfieldPutProofs LowerPutProofs.
+From LLF Require Import Base BitLemmas Row RowProofs Bitfield Lower Spec AbsLemmas BitfieldProofs BitfieldPutProofs LowerPutProofs.
 Local Open Scope N_scope.
 
 Lemma li_nth_map_seq {A} (f : nat -> A) n : forall a j,
@@ -263,3 +263,834 @@ Section Init.
     unfold ones. rewrite popcount_ones. lia.
   Qed.
 End Init.
+
+
+(* ---------- accounting: lower_stats as sums over entry indices ---------- *)
+Lemma li_skipn_skipn {A} (l : list A) : forall b a, skipn a (skipn b l) = skipn (b + a) l.
+Proof.
+  induction l as [|x l IH]; intros b a.
+  - rewrite !skipn_nil. reflexivity.
+  - destruct b; [reflexivity|]. cbn [skipn Nat.add]. apply IH.
+Qed.
+
+Lemma li_nsum_split f : forall a b, nsum (a + b) f = nsum a f + nsum b (fun j => f (a + j)%nat).
+Proof.
+  intros a; revert f; induction a as [|a IH]; intros f b; cbn [nsum Nat.add]; [reflexivity|].
+  rewrite IH. lia.
+Qed.
+
+Lemma li_nsum_flat n : forall T f, nsum T (fun t => nsum n (fun j => f (t * n + j)%nat)) = nsum (T * n) f.
+Proof.
+  induction T as [|T IH]; intros f; [reflexivity|].
+  cbn [nsum]. change (S T * n)%nat with (n + T * n)%nat. rewrite li_nsum_split. f_equal.
+  rewrite <- (IH (fun j => f (n + j)%nat)). apply nsum_ext. intros t _. apply nsum_ext. intros j _.
+  f_equal. lia.
+Qed.
+
+Definition at_ (phi : N -> N) (es : list N) (j : nat) : N :=
+  match nth_error es j with Some e => phi e | None => 0 end.
+
+Lemma li_sum_nsum phi es : forall n r,
+  fold_right (fun e a => phi e + a) 0 (firstn n (skipn r es)) = nsum n (fun j => at_ phi es (r + j)).
+Proof.
+  induction n as [|n IH]; intros r; cbn [nsum]; [reflexivity|].
+  destruct (nth_error es r) as [a|] eqn:E.
+  - rewrite (skipn_nth_cons es r a E). cbn [firstn fold_right]. rewrite IH.
+    unfold at_ at 2. rewrite Nat.add_0_r, E. f_equal.
+    apply nsum_ext. intros j _. f_equal. lia.
+  - rewrite (skipn_nth_none es r E), firstn_nil. cbn [fold_right].
+    unfold at_ at 1. rewrite Nat.add_0_r, E.
+    rewrite nsum_zero; [reflexivity|]. intros j _. unfold at_.
+    assert (N : nth_error es (r + S j) = None).
+    { apply nth_error_None. apply nth_error_None in E. lia. }
+    rewrite N. reflexivity.
+Qed.
+
+Lemma li_filter_count (p : N -> bool) l :
+  N.of_nat (length (filter p l)) = fold_right (fun e a => (if p e then 1 else 0) + a) 0 l.
+Proof.
+  induction l as [|x l IH]; cbn [filter fold_right]; [reflexivity|].
+  destruct (p x); cbn [length]; lia.
+Qed.
+
+Lemma li_chunks {A} n : (0 < n)%nat -> forall T (es : list A) fuel,
+  length es = (T * n)%nat -> (T <= fuel)%nat ->
+  chunks n es fuel = map (fun t => firstn n (skipn (t * n) es)) (seq 0 T).
+Proof.
+  intros Hn. induction T as [|T IH]; intros es fuel Hl Hf.
+  - destruct es; [|discriminate]. destruct fuel; reflexivity.
+  - destruct fuel as [|fuel]; [lia|]. destruct es as [|a es]; [cbn in Hl; lia|].
+    cbn [chunks]. cbn [seq map]. f_equal.
+    rewrite <- seq_shift, map_map. rewrite (IH (skipn n (a :: es)) fuel).
+    + apply map_ext. intros t. rewrite li_skipn_skipn. do 2 f_equal; try lia.
+    + rewrite skipn_length, Hl. lia.
+    + lia.
+Qed.
+
+Section Stats.
+  Variable g : geom.
+  Hypothesis WF : wf_geom g.
+
+  Definition hf_ind (e : N) : N := if e_free e =? HF g then 1 else 0.
+  Definition tsum (es : list N) (t : nat) : N := nsum (thuge_nat g) (fun j => at_ e_free es (t * thuge_nat g + j)).
+  Definition tcnt (es : list N) (t : nat) : N := nsum (thuge_nat g) (fun j => at_ hf_ind es (t * thuge_nat g + j)).
+
+  Definition stats_step (s : stats) (tab : list N) : stats :=
+    let free := fold_right (fun e a => e_free e + a) 0 tab in
+    {| free_frames := free_frames s + free;
+       free_huge := free_huge s + N.of_nat (length (filter (fun e => e_free e =? HF g) tab));
+       free_trees := free_trees s + (if free =? TF g then 1 else 0) |}.
+
+  Lemma li_fold_stats es : forall T a s,
+    fold_left stats_step (map (fun t => firstn (thuge_nat g) (skipn (t * thuge_nat g) es)) (seq a T)) s =
+    {| free_frames := free_frames s + nsum T (fun t => tsum es (a + t));
+       free_huge := free_huge s + nsum T (fun t => tcnt es (a + t));
+       free_trees := free_trees s + nsum T (fun t => if tsum es (a + t) =? TF g then 1 else 0) |}.
+  Proof.
+    induction T as [|T IH]; intros a s; cbn [seq map fold_left nsum].
+    - destruct s; cbn. f_equal; lia.
+    - rewrite IH. unfold stats_step. cbn [free_frames free_huge free_trees].
+      rewrite li_filter_count.
+      rewrite (li_sum_nsum e_free es), (li_sum_nsum hf_ind es).
+      fold (tsum es a) (tcnt es a). rewrite !Nat.add_0_r.
+      f_equal.
+      + rewrite <- N.add_assoc. f_equal. f_equal. apply nsum_ext. intros t _. rewrite Nat.add_succ_r. reflexivity.
+      + rewrite <- N.add_assoc. f_equal. f_equal. apply nsum_ext. intros t _. rewrite Nat.add_succ_r. reflexivity.
+      + rewrite <- N.add_assoc. f_equal. f_equal. apply nsum_ext. intros t _. rewrite Nat.add_succ_r. reflexivity.
+  Qed.
+
+  Lemma li_thuge_pos : (0 < thuge_nat g)%nat.
+  Proof. pose proof (THUGE_pos g). rewrite (THUGE_nat g) in H. lia. Qed.
+
+  Lemma li_stats_sums l T : length (ents l) = (T * thuge_nat g)%nat ->
+    lower_stats g l =
+    {| free_frames := nsum (length (ents l)) (at_ e_free (ents l));
+       free_huge := nsum (length (ents l)) (at_ hf_ind (ents l));
+       free_trees := nsum T (fun t => if tsum (ents l) t =? TF g then 1 else 0) |}.
+  Proof.
+    intros Hl. unfold lower_stats, tree_tables.
+    rewrite (li_chunks (thuge_nat g) li_thuge_pos T (ents l) (length (ents l)) Hl).
+    2:{ rewrite Hl. pose proof li_thuge_pos. nia. }
+    change (fun (s : stats) (tab : list N) => _) with stats_step.
+    rewrite li_fold_stats. cbn [stats0 free_frames free_huge free_trees Nat.add]. rewrite !N.add_0_l.
+    unfold tsum, tcnt. rewrite !li_nsum_flat, <- Hl. reflexivity.
+  Qed.
+End Stats.
+
+
+(* ---------- free frames = zero bits ---------- *)
+Fixpoint pair_free (es : list N) (bs : list (list N)) : N :=
+  match es, bs with e :: es', _ :: bs' => e_free e + pair_free es' bs' | _, _ => 0 end.
+
+Lemma li_land_shiftl_0 a b n : a < 2 ^ n -> N.land a (N.shiftl b n) = 0.
+Proof.
+  intros Ha. apply N.bits_inj. intros i. rewrite N.land_spec, N.bits_0.
+  destruct (N.lt_ge_cases i n) as [Hi|Hi].
+  - rewrite N.shiftl_spec_low by assumption. apply andb_false_r.
+  - rewrite (testbit_high a n i) by assumption. reflexivity.
+Qed.
+
+Lemma li_sum_all_zero es : (forall h e, nth_error es h = Some e -> e = 0) ->
+  fold_right (fun e a => e_free e + a) 0 es = 0.
+Proof.
+  induction es as [|e es IH]; intros H; cbn [fold_right]; [reflexivity|].
+  rewrite (H 0%nat e eq_refl). rewrite IH; [reflexivity|]. intros h x Hx. apply (H (S h)). exact Hx.
+Qed.
+
+Lemma li_pair_free_all : forall es bs,
+  (forall h e, nth_error es h = Some e -> nth_error bs h = None -> e = 0) ->
+  pair_free es bs = fold_right (fun e a => e_free e + a) 0 es.
+Proof.
+  induction es as [|e es IH]; intros bs H; [reflexivity|].
+  destruct bs as [|b bs].
+  - cbn [pair_free]. symmetry. apply li_sum_all_zero. intros h x Hx. apply (H h x Hx). destruct h; reflexivity.
+  - cbn [pair_free fold_right]. f_equal. apply IH. intros h x Hx Hb. apply (H (S h) x Hx Hb).
+Qed.
+
+Lemma li_fold_nsum es : fold_right (fun e a => e_free e + a) 0 es = nsum (length es) (at_ e_free es).
+Proof.
+  rewrite <- (firstn_all es) at 1. change (firstn (length es) es) with (firstn (length es) (skipn 0 es)).
+  rewrite li_sum_nsum. reflexivity.
+Qed.
+
+Section Acc.
+  Variable g : geom.
+  Hypothesis WF : wf_geom g.
+
+  Lemma li_popcount_abs_from : forall es bs,
+    (forall h e rows, nth_error es h = Some e -> nth_error bs h = Some rows ->
+                      rows_ok g rows /\ e_free e + popcount (huge_bits g e rows) = HF g) ->
+    pair_free es bs + popcount (abs_from g es bs) = N.of_nat (Nat.min (length es) (length bs)) * HF g.
+  Proof.
+    induction es as [|e es IH]; intros bs H; [reflexivity|].
+    destruct bs as [|rows bs]; [reflexivity|].
+    cbn [pair_free abs_from length Nat.min].
+    destruct (H 0%nat e rows eq_refl eq_refl) as (Hok & Hsum).
+    rewrite popcount_lor_disjoint by (apply li_land_shiftl_0; apply (huge_bits_lt g WF); assumption).
+    rewrite popcount_shiftl.
+    specialize (IH bs (fun h => H (S h))). lia.
+  Qed.
+
+  Lemma li_huge_ok_sum fr h e rows : huge_ok g fr h e rows ->
+    rows_ok g rows /\ e_free e + popcount (huge_bits g e rows) = HF g.
+  Proof.
+    intros (Hok & Hmark & Hcnt & _). split; [assumption|]. unfold huge_bits, e_free, e_huge.
+    destruct (N.eqb_spec e MARK) as [E|E].
+    - unfold ones. rewrite popcount_ones. lia.
+    - destruct (Hcnt E) as (-> & _). apply (bf_count_zeros_sum g WF). assumption.
+  Qed.
+
+  (* C04 (lower part): the counters add up to the number of free frames *)
+  Theorem stats_free_frames_exact l : LowerInv g l ->
+    nsum (length (ents l)) (at_ e_free (ents l)) + popcount (o_alloc (abs g l)) = frames l.
+  Proof.
+    intros Inv. pose proof Inv as (Hlb & Hle & Hok & Hnobf). pose proof (HF_pos g) as HP.
+    rewrite <- li_fold_nsum, <- (li_pair_free_all (ents l) (bfs l) Hnobf).
+    pose proof (li_popcount_abs_from (ents l) (bfs l)) as P.
+    rewrite Hlb, Hle in P. pose proof (nbf_le_ntab g (frames l)) as Hnt.
+    replace (Nat.min (nn (ntab g (frames l) * THUGE g)) (nn (nbf g (frames l)))) with (nn (nbf g (frames l))) in P
+      by (unfold nn; lia).
+    unfold nn in P. rewrite N2Nat.id in P.
+    specialize (P (fun h e rows He Hb => li_huge_ok_sum _ _ _ _ (Hok h e rows He Hb))).
+    set (X := abs_from g (ents l) (bfs l)) in *. set (M := nbf g (frames l) * HF g) in *.
+    assert (HM : frames l <= M) by apply li_nbf_ge.
+    assert (Hx : forall f, N.testbit X f =
+                 match ent l (f / HF g), bf l (f / HF g) with
+                 | Some e, Some rows => N.testbit (huge_bits g e rows) (f mod HF g) | _, _ => false end).
+    { intros f. unfold X. apply (abs_from_testbit g WF).
+      intros h e rows He Hb. destruct (Hok h e rows He Hb) as (R & _). exact R. }
+    assert (E : X = N.lor (N.land X (ones (frames l))) (blk (frames l) (M - frames l))).
+    { apply N.bits_inj. intros f. rewrite N.lor_spec, N.land_spec, blk_testbit. unfold ones.
+      destruct (N.lt_ge_cases f (frames l)) as [Hf|Hf].
+      - rewrite N.ones_spec_low by assumption. destruct (N.leb_spec (frames l) f); [lia|].
+        cbn [andb]. rewrite andb_true_r, orb_false_r. reflexivity.
+      - rewrite N.ones_spec_high by assumption. rewrite andb_false_r. cbn [orb].
+        destruct (N.leb_spec (frames l) f); [|lia]. cbn [andb].
+        destruct (N.ltb_spec f (frames l + (M - frames l))) as [Hm|Hm].
+        + (* tail bits of the last bitfield are set *)
+          assert (Hh : f / HF g < nbf g (frames l)).
+          { apply N.div_lt_upper_bound; [lia|]. unfold M in Hm. lia. }
+          destruct (LowerInv_bf_some g l _ Inv Hh) as (rows & Hb).
+          destruct (LowerInv_ent_some g l (f / HF g) Inv ltac:(lia)) as (e & He).
+          rewrite Hx, He, Hb. pose proof (N.mod_lt f (HF g) ltac:(lia)) as Hml.
+          rewrite (huge_bits_testbit g e rows _ Hml).
+          pose proof (LowerInv_huge_ok g l _ _ _ Inv He Hb) as (_ & _ & _ & Htail).
+          rewrite (Htail (f mod HF g) Hml). { apply orb_true_r. }
+          pose proof (N.div_mod f (HF g) ltac:(lia)). lia.
+        + rewrite Hx. destruct (bf l (f / HF g)) as [rows|] eqn:Hb.
+          * exfalso. pose proof (LowerInv_bf_lt g l _ _ Inv Hb) as Hh.
+            pose proof (N.div_mod f (HF g) ltac:(lia)) as D. pose proof (N.mod_lt f (HF g) ltac:(lia)) as Hml.
+            unfold M in Hm. revert Hm Hh D Hml HM. generalize (f / HF g) (f mod HF g) (nbf g (frames l)) (HF g).
+            intros; nia.
+          * destruct (ent l (f / HF g)); reflexivity. }
+    assert (D : N.land (N.land X (ones (frames l))) (blk (frames l) (M - frames l)) = 0).
+    { apply N.bits_inj. intros f. rewrite !N.land_spec, blk_testbit, N.bits_0. unfold ones.
+      destruct (N.lt_ge_cases f (frames l)) as [Hf|Hf].
+      - destruct (N.leb_spec (frames l) f); [lia|]. cbn [andb]. apply andb_false_r.
+      - rewrite N.ones_spec_high by assumption. rewrite andb_false_r. reflexivity. }
+    pose proof (popcount_lor_disjoint _ _ D) as PC. rewrite <- E, bp_popcount_blk in PC.
+    change (o_alloc (abs g l)) with (N.land X (ones (frames l))). lia.
+  Qed.
+End Acc.
+
+
+(* ---------- free huge frames / free trees ---------- *)
+Lemma li_nsum_eq_max : forall n f b, (forall j, (j < n)%nat -> f j <= b) -> nsum n f = N.of_nat n * b ->
+  forall j, (j < n)%nat -> f j = b.
+Proof.
+  induction n as [|n IH]; intros f b Hle Hs j Hj; [lia|]. cbn [nsum] in Hs.
+  assert (H0 : f 0%nat <= b) by (apply Hle; lia).
+  assert (H1 : nsum n (fun j => f (S j)) <= N.of_nat n * b) by (apply nsum_le; intros; apply Hle; lia).
+  destruct j as [|j]; [nia|].
+  apply (IH (fun j => f (S j)) b); [intros; apply Hle; lia | nia | lia].
+Qed.
+
+Lemma li_nsum_const n b : nsum n (fun _ => b) = N.of_nat n * b.
+Proof. induction n as [|n IH]; cbn [nsum]; [reflexivity|]. rewrite IH. lia. Qed.
+
+Lemma li_cfb_nsum s k : forall n i,
+  count_free_blocks s k i n =
+  nsum n (fun j => if in_range s ((i + N.of_nat j) * pow2 k) k && all_free s ((i + N.of_nat j) * pow2 k) k then 1 else 0).
+Proof.
+  induction n as [|n IH]; intros i; cbn [count_free_blocks nsum]; [reflexivity|].
+  rewrite IH, N.add_0_r. f_equal. apply nsum_ext. intros j _.
+  replace (i + 1 + N.of_nat j) with (i + N.of_nat (S j)) by lia. reflexivity.
+Qed.
+
+Section Acc2.
+  Variable g : geom.
+  Hypothesis WF : wf_geom g.
+
+  Lemma li_divmod h t : t < HF g -> (h * HF g + t) / HF g = h /\ (h * HF g + t) mod HF g = t.
+  Proof.
+    intros Ht. split.
+    - apply lp_div_unique. lia.
+    - symmetry. apply (N.mod_unique _ (HF g) h t); [assumption | lia].
+  Qed.
+
+  Lemma li_at_hf es j : at_ (hf_ind g) es j = if at_ e_free es j =? HF g then 1 else 0.
+  Proof.
+    unfold at_, hf_ind. destruct (nth_error es j); [reflexivity|].
+    pose proof (HF_pos g). destruct (N.eqb_spec 0 (HF g)); [lia | reflexivity].
+  Qed.
+
+  Lemma li_at_ent l h : at_ e_free (ents l) (nn h) = match ent l h with Some e => e_free e | None => 0 end.
+  Proof. reflexivity. Qed.
+
+  Lemma li_efree_le l j : LowerInv g l -> at_ e_free (ents l) j <= HF g.
+  Proof.
+    intros Inv. pose proof (HF_pos g). unfold at_. destruct (nth_error (ents l) j) as [e|] eqn:He; [|lia].
+    unfold e_free, e_huge. destruct (N.eqb_spec e MARK); [lia|].
+    destruct Inv as (_ & _ & Hok & Hno). destruct (nth_error (bfs l) j) as [rows|] eqn:Hb.
+    - destruct (Hok j e rows He Hb) as (_ & _ & Hc & _). destruct (Hc n). assumption.
+    - rewrite (Hno j e He Hb). lia.
+  Qed.
+
+  (* a huge frame entirely inside the range is free (all its frames) iff its counter is HF *)
+  Lemma li_huge_free_iff l h : LowerInv g l -> (h + 1) * HF g <= frames l ->
+    ((forall t, t < HF g -> alloc_at g l (h * HF g + t) = false) <-> at_ e_free (ents l) (nn h) = HF g).
+  Proof.
+    intros Inv Hr. pose proof (HF_pos g) as HP. pose proof (HF_lt_MARK g WF) as HM.
+    assert (Hf : h * HF g < frames l) by lia.
+    destruct (LowerInv_frame g l _ Inv Hf) as (e & rows & He & Hb).
+    destruct (li_divmod h 0 HP) as (E0 & _). rewrite N.add_0_r in E0. rewrite E0 in He, Hb.
+    pose proof (LowerInv_huge_ok g l _ _ _ Inv He Hb) as (Hok & Hmark & Hcnt & _).
+    rewrite li_at_ent, He.
+    assert (Ha : forall t, t < HF g -> alloc_at g l (h * HF g + t) = e_huge e || N.testbit (rows_bits rows) t).
+    { intros t Ht. unfold alloc_at. destruct (li_divmod h t Ht) as (-> & ->). rewrite He, Hb.
+      destruct (N.ltb_spec (h * HF g + t) (frames l)); [reflexivity | lia]. }
+    split.
+    - intros H. assert (Hh : e_huge e = false).
+      { specialize (H 0 HP). rewrite Ha in H by assumption. apply orb_false_iff in H. tauto. }
+      assert (Hz : rows_bits rows = 0).
+      { apply N.bits_inj. intros t. rewrite N.bits_0. destruct (N.lt_ge_cases t (HF g)) as [Ht|Ht].
+        - specialize (H t Ht). rewrite Ha in H by assumption. apply orb_false_iff in H. tauto.
+        - apply (rows_bits_high g WF); assumption. }
+      apply rows_bits_zero_inv in Hz. unfold e_free. rewrite Hh.
+      assert (En : e <> MARK) by (apply N.eqb_neq; exact Hh).
+      destruct (Hcnt En) as (-> & _). apply (count_zeros_of_zero g WF); assumption.
+    - intros H t Ht. rewrite Ha by assumption. unfold e_free in H.
+      destruct (e_huge e) eqn:Hh; [lia|]. cbn [orb].
+      assert (En : e <> MARK) by (apply N.eqb_neq; exact Hh).
+      destruct (Hcnt En) as (Ec & _). rewrite Ec in H.
+      pose proof (count_zeros_full_zero g WF rows Hok H) as Hz. rewrite (rows_zero_bits rows Hz). apply N.bits_0.
+  Qed.
+
+  Lemma li_huge_all_free l h : LowerInv g l -> (h + 1) * HF g <= frames l ->
+    (all_free (abs g l) (h * HF g) (hord g) = true <-> at_ e_free (ents l) (nn h) = HF g).
+  Proof.
+    intros Inv Hr. rewrite <- (li_huge_free_iff l h Inv Hr), all_free_spec. rewrite <- (HF_pow2 g). split.
+    - intros H t Ht. rewrite <- (abs_alloc_testbit g WF l Inv). apply H. lia.
+    - intros H i Hi. rewrite (abs_alloc_testbit g WF l Inv).
+      replace i with (h * HF g + (i - h * HF g)) by lia. apply H. lia.
+  Qed.
+
+  (* an entry at or beyond the last fully managed huge frame never reads "entirely free" *)
+  Lemma li_not_free_beyond l h : LowerInv g l -> frames l / HF g <= h -> at_ e_free (ents l) (nn h) <> HF g.
+  Proof.
+    intros Inv Hh. pose proof (HF_pos g) as HP. rewrite li_at_ent.
+    destruct (ent l h) as [e|] eqn:He; [|lia].
+    destruct (bf l h) as [rows|] eqn:Hb.
+    - pose proof (LowerInv_huge_ok g l _ _ _ Inv He Hb) as (Hok & Hmark & Hcnt & Htail).
+      pose proof (nbf_lt_inv g _ _ (LowerInv_bf_lt g l _ _ Inv Hb)) as Hlt.
+      unfold e_free. destruct (e_huge e) eqn:Hg; [lia|].
+      assert (En : e <> MARK) by (apply N.eqb_neq; exact Hg).
+      destruct (Hcnt En) as (Ec & _). intros E. rewrite Ec in E.
+      pose proof (count_zeros_full_zero g WF rows Hok E) as Hz.
+      pose proof (N.div_mod (frames l) (HF g) ltac:(lia)) as D. pose proof (N.mod_lt (frames l) (HF g) ltac:(lia)) as M.
+      assert (Hb1 : frames l - h * HF g < HF g).
+      { revert Hh D M Hlt. generalize (frames l / HF g) (frames l mod HF g) (HF g) (frames l). intros; nia. }
+      specialize (Htail (frames l - h * HF g) Hb1 ltac:(lia)).
+      rewrite (rows_zero_bits rows Hz), N.bits_0 in Htail. discriminate.
+    - rewrite (LowerInv_no_bf g l _ _ Inv He Hb). change (e_free 0) with 0. lia.
+  Qed.
+
+  Theorem stats_free_huge_count l : LowerInv g l ->
+    nsum (length (ents l)) (at_ (hf_ind g) (ents l)) = free_huge_count g (abs g l).
+  Proof.
+    intros Inv. pose proof Inv as (_ & Hle & _). pose proof (HF_pos g) as HP.
+    unfold free_huge_count. rewrite li_cfb_nsum. change (o_frames (abs g l)) with (frames l).
+    assert (Hsplit : length (ents l) = (nn (frames l / HF g) + (length (ents l) - nn (frames l / HF g)))%nat).
+    { assert (frames l / HF g <= ntab g (frames l) * THUGE g).
+      { pose proof (nbf_le_ntab g (frames l)). pose proof (li_nbf_ge g (frames l)).
+        pose proof (N.mul_div_le (frames l) (HF g) ltac:(lia)).
+        revert H H0 H1. generalize (frames l / HF g) (nbf g (frames l)) (ntab g (frames l) * THUGE g) (HF g) HP.
+        intros; nia. }
+      rewrite Hle. unfold nn. lia. }
+    rewrite Hsplit, li_nsum_split. rewrite (nsum_zero (length (ents l) - _)).
+    - rewrite N.add_0_r. apply nsum_ext. intros j Hj. rewrite li_at_hf. rewrite N.add_0_l.
+      assert (Hfull : (N.of_nat j + 1) * HF g <= frames l) by (apply li_full_le; unfold nn in Hj; lia).
+      unfold in_range. change (o_frames (abs g l)) with (frames l). rewrite <- (HF_pow2 g).
+      destruct (N.leb_spec (N.of_nat j * HF g + HF g) (frames l)); [|lia]. cbn [andb].
+      pose proof (li_huge_all_free l (N.of_nat j) Inv Hfull) as Hiff.
+      unfold nn in Hiff. rewrite Nat2N.id in Hiff.
+      destruct (all_free (abs g l) (N.of_nat j * HF g) (hord g)), (N.eqb_spec (at_ e_free (ents l) j) (HF g));
+        try reflexivity; exfalso; intuition congruence.
+    - intros j _. rewrite li_at_hf.
+      pose proof (li_not_free_beyond l (N.of_nat (nn (frames l / HF g) + j)) Inv ltac:(unfold nn; lia)) as Hn.
+      unfold nn in Hn at 1. rewrite Nat2N.id in Hn.
+      destruct (N.eqb_spec (at_ e_free (ents l) (nn (frames l / HF g) + j)) (HF g)); [contradiction | reflexivity].
+  Qed.
+End Acc2.
+
+
+Section Acc3.
+  Variable g : geom.
+  Hypothesis WF : wf_geom g.
+
+  (* frames of tree t <-> (huge frame j of the tree, offset u) *)
+  Lemma li_tree_decomp t i : t * TF g <= i < t * TF g + TF g ->
+    exists j u, j < THUGE g /\ u < HF g /\ i = (t * THUGE g + j) * HF g + u.
+  Proof.
+    intros Hi. pose proof (HF_pos g) as HP. rewrite TF_eq in Hi.
+    exists ((i - t * (THUGE g * HF g)) / HF g), ((i - t * (THUGE g * HF g)) mod HF g).
+    pose proof (N.div_mod (i - t * (THUGE g * HF g)) (HF g) ltac:(lia)) as D.
+    pose proof (N.mod_lt (i - t * (THUGE g * HF g)) (HF g) ltac:(lia)) as M.
+    split; [|split; [assumption|]].
+    - apply N.div_lt_upper_bound; lia.
+    - revert D M. generalize ((i - t * (THUGE g * HF g)) / HF g) ((i - t * (THUGE g * HF g)) mod HF g).
+      intros q r D M. nia.
+  Qed.
+
+  Lemma li_tree_all_free l t : LowerInv g l -> (t + 1) * TF g <= frames l ->
+    (all_free (abs g l) (t * TF g) (tord g) = true <-> tsum g (ents l) (nn t) = TF g).
+  Proof.
+    intros Inv Hr. pose proof (HF_pos g) as HP. pose proof (THUGE_pos g) as TP.
+    assert (Hhuge : forall j, j < THUGE g -> (t * THUGE g + j + 1) * HF g <= frames l).
+    { intros j Hj. rewrite TF_eq in Hr. nia. }
+    assert (Hidx : forall j, (nn t * thuge_nat g + j)%nat = nn (t * THUGE g + N.of_nat j)).
+    { intros j. rewrite <- nn_tree_base. unfold nn. lia. }
+    rewrite all_free_spec, <- (TF_pow2 g). unfold tsum. split.
+    - intros H. rewrite TF_eq, (THUGE_nat g), <- li_nsum_const. apply nsum_ext. intros j Hj.
+      rewrite Hidx. assert (Hj' : N.of_nat j < THUGE g) by (rewrite (THUGE_nat g); lia).
+      apply (li_huge_free_iff g WF l _ Inv (Hhuge _ Hj')). intros u Hu.
+      rewrite <- (abs_alloc_testbit g WF l Inv). apply H. rewrite TF_eq. nia.
+    - intros H i Hi. destruct (li_tree_decomp t i Hi) as (j & u & Hj & Hu & ->).
+      rewrite (abs_alloc_testbit g WF l Inv).
+      apply (proj2 (li_huge_free_iff g WF l _ Inv (Hhuge _ Hj))); [|assumption].
+      rewrite TF_eq, (THUGE_nat g) in H.
+      pose proof (li_nsum_eq_max _ _ _ (fun j _ => li_efree_le g l _ Inv) H (nn j)) as E.
+      cbv beta in E. rewrite Hidx in E. unfold nn in E at 2. rewrite N2Nat.id in E. apply E.
+      rewrite (THUGE_nat g) in Hj. unfold nn. lia.
+  Qed.
+
+  Lemma li_tree_not_free_beyond l t : LowerInv g l -> frames l / TF g <= t -> tsum g (ents l) (nn t) <> TF g.
+  Proof.
+    intros Inv Ht H. pose proof (HF_pos g) as HP. pose proof (THUGE_pos g) as TP.
+    unfold tsum in H. rewrite TF_eq, (THUGE_nat g) in H.
+    assert (Hlast : (thuge_nat g - 1 < thuge_nat g)%nat) by (pose proof (li_thuge_pos g); lia).
+    pose proof (li_nsum_eq_max _ _ _ (fun j _ => li_efree_le g l _ Inv) H _ Hlast) as E.
+    cbv beta in E. replace (nn t * thuge_nat g + (thuge_nat g - 1))%nat with (nn (t * THUGE g + (THUGE g - 1))) in E.
+    2:{ rewrite <- nn_tree_base. rewrite (THUGE_nat g) at 2. unfold nn. lia. }
+    revert E. apply (li_not_free_beyond g WF l _ Inv).
+    (* frames / HF <= (t+1) * THUGE - 1 *)
+    pose proof (N.div_mod (frames l) (TF g) ltac:(pose proof (TF_pos g); lia)) as D.
+    pose proof (N.mod_lt (frames l) (TF g) ltac:(pose proof (TF_pos g); lia)) as M.
+    assert (frames l < (t + 1) * THUGE g * HF g).
+    { rewrite TF_eq in *. revert Ht D M. generalize (frames l / (THUGE g * HF g)) (frames l mod (THUGE g * HF g)).
+      intros q r Ht D M. nia. }
+    assert (frames l / HF g < (t + 1) * THUGE g) by (apply N.div_lt_upper_bound; lia).
+    nia.
+  Qed.
+
+  Theorem stats_free_tree_count l : LowerInv g l ->
+    nsum (nn (ntab g (frames l))) (fun t => if tsum g (ents l) t =? TF g then 1 else 0) = free_tree_count g (abs g l).
+  Proof.
+    intros Inv. pose proof (TF_pos g) as TP.
+    unfold free_tree_count. rewrite li_cfb_nsum. change (o_frames (abs g l)) with (frames l).
+    assert (Hsplit : nn (ntab g (frames l)) = (nn (frames l / TF g) + (nn (ntab g (frames l)) - nn (frames l / TF g)))%nat).
+    { assert (frames l / TF g <= ntab g (frames l)).
+      { pose proof (div_ceil_ge (frames l) (TF g) ltac:(lia)) as G. fold (ntab g (frames l)) in G.
+        pose proof (N.mul_div_le (frames l) (TF g) ltac:(lia)).
+        revert G H. generalize (frames l / TF g) (ntab g (frames l)) (TF g) TP. intros; nia. }
+      unfold nn. lia. }
+    rewrite Hsplit, li_nsum_split. rewrite (nsum_zero (nn (ntab g (frames l)) - _)).
+    - rewrite N.add_0_r. apply nsum_ext. intros j Hj. rewrite N.add_0_l.
+      assert (Hfull : (N.of_nat j + 1) * TF g <= frames l).
+      { pose proof (N.mul_div_le (frames l) (TF g) ltac:(lia)). unfold nn in Hj.
+        assert (N.of_nat j + 1 <= frames l / TF g) by lia. nia. }
+      unfold in_range. change (o_frames (abs g l)) with (frames l). rewrite <- (TF_pow2 g).
+      destruct (N.leb_spec (N.of_nat j * TF g + TF g) (frames l)); [|lia]. cbn [andb].
+      pose proof (li_tree_all_free l (N.of_nat j) Inv Hfull) as Hiff.
+      unfold nn in Hiff. rewrite Nat2N.id in Hiff.
+      destruct (all_free (abs g l) (N.of_nat j * TF g) (tord g)), (N.eqb_spec (tsum g (ents l) j) (TF g));
+        try reflexivity; exfalso; intuition congruence.
+    - intros j _.
+      pose proof (li_tree_not_free_beyond l (N.of_nat (nn (frames l / TF g) + j)) Inv ltac:(unfold nn; lia)) as Hn.
+      unfold nn in Hn at 1. rewrite Nat2N.id in Hn.
+      destruct (N.eqb_spec (tsum g (ents l) (nn (frames l / TF g) + j)) (TF g)); [contradiction | reflexivity].
+  Qed.
+
+  (* C04 (lower part) / B4: the statistics of the lower allocator are the accounting of its ownership state *)
+  Theorem lower_stats_abs l : LowerInv g l ->
+    free_frames (lower_stats g l) = exact_free (abs g l) /\
+    free_huge (lower_stats g l) = free_huge_count g (abs g l) /\
+    free_trees (lower_stats g l) = free_tree_count g (abs g l).
+  Proof.
+    intros Inv. pose proof Inv as (_ & Hle & _).
+    assert (Hl : length (ents l) = (nn (ntab g (frames l)) * thuge_nat g)%nat) by (rewrite Hle; apply nn_tree_base).
+    rewrite (li_stats_sums g l _ Hl). cbn [free_frames free_huge free_trees].
+    split; [|split].
+    - pose proof (stats_free_frames_exact g WF l Inv) as E. unfold exact_free.
+      change (o_frames (abs g l)) with (frames l). lia.
+    - apply stats_free_huge_count; assumption.
+    - apply stats_free_tree_count; assumption.
+  Qed.
+End Acc3.
+
+(* ---------- statistics of the two initial states; pointwise "nothing beyond the range is free" ---------- *)
+Lemma li_cfb_all_free s k : o_alloc s = 0 ->
+  count_free_blocks s k 0 (nn (o_frames s / pow2 k)) = o_frames s / pow2 k.
+Proof.
+  intros Hz. rewrite li_cfb_nsum. pose proof (pow2_pos k) as WP.
+  rewrite (nsum_ext _ _ (fun _ => 1)).
+  - rewrite li_nsum_const. unfold nn. lia.
+  - intros j Hj. rewrite N.add_0_l. unfold in_range, all_free. rewrite Hz, N.land_0_l. cbn [N.eqb].
+    pose proof (N.mul_div_le (o_frames s) (pow2 k) ltac:(lia)) as M.
+    assert (N.of_nat j + 1 <= o_frames s / pow2 k) by (unfold nn in Hj; lia).
+    destruct (N.leb_spec (N.of_nat j * pow2 k + pow2 k) (o_frames s)); [reflexivity | nia].
+Qed.
+
+Lemma li_cfb_none_free s k n : o_alloc s = ones (o_frames s) -> count_free_blocks s k 0 n = 0.
+Proof.
+  intros Ho. rewrite li_cfb_nsum. apply nsum_zero. intros j _. pose proof (pow2_pos k) as WP.
+  unfold in_range. destruct (N.leb_spec ((0 + N.of_nat j) * pow2 k + pow2 k) (o_frames s)) as [Hin|]; [|reflexivity].
+  cbn [andb]. destruct (all_free s ((0 + N.of_nat j) * pow2 k) k) eqn:A; [|reflexivity].
+  exfalso. rewrite all_free_spec in A. specialize (A ((0 + N.of_nat j) * pow2 k) ltac:(lia)).
+  rewrite Ho in A. unfold ones in A. rewrite N.ones_spec_low in A by lia. discriminate.
+Qed.
+
+Section InitStats.
+  Variable g : geom.
+  Hypothesis WF : wf_geom g.
+
+  (* B1 *)
+  Theorem free_all_stats fr :
+    lower_stats g (free_all g fr) = {| free_frames := fr; free_huge := fr / HF g; free_trees := fr / TF g |}.
+  Proof.
+    destruct (lower_stats_abs g WF _ (free_all_inv g WF fr)) as (E1 & E2 & E3).
+    rewrite (free_all_exact_free g WF) in E1.
+    unfold free_huge_count in E2. rewrite (HF_pow2 g), li_cfb_all_free in E2 by apply (free_all_alloc g WF).
+    unfold free_tree_count in E3. rewrite (TF_pow2 g), li_cfb_all_free in E3 by apply (free_all_alloc g WF).
+    change (o_frames (abs g (free_all g fr))) with fr in E2, E3.
+    rewrite <- (HF_pow2 g) in E2. rewrite <- (TF_pow2 g) in E3.
+    destruct (lower_stats g (free_all g fr)); cbn in *. congruence.
+  Qed.
+
+  (* B2 *)
+  Theorem reserve_all_stats fr : lower_stats g (reserve_all g fr) = stats0.
+  Proof.
+    destruct (lower_stats_abs g WF _ (reserve_all_inv g WF fr)) as (E1 & E2 & E3).
+    rewrite (reserve_all_exact_free g WF) in E1.
+    unfold free_huge_count in E2. rewrite li_cfb_none_free in E2 by apply (reserve_all_alloc g WF).
+    unfold free_tree_count in E3. rewrite li_cfb_none_free in E3 by apply (reserve_all_alloc g WF).
+    unfold stats0. destruct (lower_stats g (reserve_all g fr)); cbn in *. congruence.
+  Qed.
+
+  (* B4: nothing at or beyond `frames` is ever reported free *)
+  Theorem beyond_bit_set l f e rows : LowerInv g l -> frames l <= f ->
+    ent l (f / HF g) = Some e -> bf l (f / HF g) = Some rows -> N.testbit (rows_bits rows) (f mod HF g) = true.
+  Proof.
+    intros Inv Hf He Hb. pose proof (HF_pos g) as HP.
+    pose proof (LowerInv_huge_ok g l _ _ _ Inv He Hb) as (_ & _ & _ & Htail).
+    apply Htail; [apply N.mod_lt; lia|]. pose proof (N.div_mod f (HF g) ltac:(lia)). lia.
+  Qed.
+
+  Theorem beyond_not_alloc_not_free l f : LowerInv g l -> frames l <= f ->
+    alloc_at g l f = false /\ N.testbit (o_alloc (abs g l)) f = false /\
+    (forall k, lower_is_free g l f k = Panic SIsFreeAssert) /\
+    (forall s, lower_stats_at g l f 0 = Ok s -> s = stats0).
+  Proof.
+    intros Inv Hf. pose proof (HF_pos g) as HP.
+    assert (A : alloc_at g l f = false).
+    { unfold alloc_at. destruct (N.ltb_spec f (frames l)); [lia | reflexivity]. }
+    split; [exact A|]. split; [rewrite (abs_alloc_testbit g WF l Inv); exact A|]. split.
+    - intros k. unfold lower_is_free. pose proof (pow2_pos k).
+      destruct (N.leb_spec (f + pow2 k) (frames l)); [lia|]. rewrite andb_false_r. reflexivity.
+    - intros s. unfold lower_stats_at. destruct (has_tree g l (f / TF g)); cbn [negb]; [|discriminate].
+      cbn [Nat.eqb]. destruct (ent l (f / HF g)) as [e|] eqn:He; [|discriminate].
+      destruct (0 <? e_free e); [|intros [= <-]; reflexivity].
+      destruct (bf l (f / HF g)) as [rows|] eqn:Hb; [|discriminate].
+      pose proof (LowerInv_huge_ok g l _ _ _ Inv He Hb) as (Hok & _).
+      destruct (bf_is_zero g rows f 0) eqn:Z; [|intros [= <-]; reflexivity].
+      exfalso. apply (bf_is_zero_spec g WF rows f 0 Hok ltac:(lia) (N.mod_1_r f)) in Z.
+      rewrite land_blk_zero in Z. specialize (Z (f mod HF g) ltac:(change (pow2 0) with 1; lia)).
+      rewrite (beyond_bit_set l f e rows Inv Hf He Hb) in Z. discriminate.
+  Qed.
+End InitStats.
+
+(* ---------- non-vacuity ---------- *)
+Example init_ex_5000 :
+  lower_invb g9 (free_all g9 5000) = true /\ lower_invb g9 (reserve_all g9 5000) = true /\
+  lower_stats g9 (free_all g9 5000) = {| free_frames := 5000; free_huge := 9; free_trees := 2 |} /\
+  o_alloc (abs g9 (reserve_all g9 5000)) = ones 5000 /\ o_whole (abs g9 (reserve_all g9 5000)) = ones 9 /\
+  ent (free_all g9 5000) 9 = Some 392 /\ ent (free_all g9 5000) 10 = Some 0 /\ bf (free_all g9 5000) 10 = None.
+Proof. vm_compute. repeat split. Qed.
+
+Example init_ex_edge :
+  lower_stats g9 (free_all g9 0) = stats0 /\ ents (free_all g9 0) = [] /\ bfs (reserve_all g9 0) = [] /\
+  lower_stats g9 (free_all g9 2048) = {| free_frames := 2048; free_huge := 4; free_trees := 1 |} /\
+  lower_stats g9 (free_all g9 2049) = {| free_frames := 2049; free_huge := 4; free_trees := 1 |} /\
+  length (ents (free_all g9 2049)) = 8%nat /\ length (bfs (free_all g9 2049)) = 5%nat /\
+  lower_stats g9 (free_all g9 511) = {| free_frames := 511; free_huge := 0; free_trees := 0 |} /\
+  lower_invb g9 (free_all g9 511) = true /\ lower_invb g9 (reserve_all g9 511) = true /\
+  lower_stats g9 (reserve_all g9 2049) = stats0.
+Proof. vm_compute. repeat split. Qed.
+
+Print Assumptions free_all_inv.
+Print Assumptions free_all_alloc.
+Print Assumptions free_all_stats.
+Print Assumptions reserve_all_inv.
+Print Assumptions reserve_all_alloc.
+Print Assumptions reserve_all_whole.
+Print Assumptions reserve_all_stats.
+Print Assumptions lower_stats_abs.
+Print Assumptions beyond_not_alloc_not_free.
+
+(* ---------- B3: freeing everything after reserve_all yields exactly free_all ---------- *)
+Lemma li_upd_id {A} (l : list A) i x : nth_error l i = Some x \/ nth_error l i = None -> upd l i x = l.
+Proof.
+  intros H. apply bp_nth_error_ext. intros j. rewrite bp_nth_error_upd.
+  destruct (Nat.eqb_spec i j) as [<-|]; [|reflexivity].
+  destruct (Nat.ltb_spec i (length l)) as [Hl|Hl].
+  - destruct H as [H|H]; [congruence|]. apply nth_error_None in H. lia.
+  - symmetry. apply nth_error_None. assumption.
+Qed.
+
+Section FreeSeq.
+  Variable g : geom.
+  Hypothesis WF : wf_geom g.
+
+  Lemma li_rows_bits_inj a b : rows_ok g a -> rows_ok g b ->
+    (forall t, N.testbit (rows_bits a) t = N.testbit (rows_bits b) t) -> a = b.
+  Proof.
+    intros (La & Fa) (Lb & Fb) H. apply bp_nth_error_ext. intros j.
+    destruct (nth_error a j) as [x|] eqn:Ex; destruct (nth_error b j) as [y|] eqn:Ey.
+    - f_equal. apply N.bits_inj. intros t. destruct (N.lt_ge_cases t 64) as [Ht|Ht].
+      + specialize (H (64 * N.of_nat j + t)). rewrite !bp_rows_bits_testbit in H by assumption.
+        destruct (bp_div64 (N.of_nat j) t Ht) as (E1 & E2). rewrite E1, E2 in H.
+        unfold nn in H. rewrite Nat2N.id, Ex, Ey in H. exact H.
+      + rewrite !bp_testbit_high64; try assumption; try reflexivity.
+        * exact (bp_Forall_nth_inv _ _ _ _ Fb Ey).
+        * exact (bp_Forall_nth_inv _ _ _ _ Fa Ex).
+    - exfalso. apply nth_error_None in Ey. assert (j < length a)%nat by (apply nth_error_Some; congruence). lia.
+    - exfalso. apply nth_error_None in Ex. assert (j < length b)%nat by (apply nth_error_Some; congruence). lia.
+    - reflexivity.
+  Qed.
+
+  Definition put_step (acc : res unit * lower) (p : N * nat) : res unit * lower :=
+    match acc with (Ok _, l) => lower_put g l (fst p) (snd p) | other => other end.
+  Definition put_all (l : lower) (ps : list (N * nat)) : res unit * lower := fold_left put_step ps (Ok tt, l).
+
+  (* the canonical free sequence: every whole huge frame at HUGE_ORDER, then every remaining managed frame
+     (those of the partial last huge frame) at order 0 *)
+  Definition free_seq_huge (fr : N) : list (N * nat) :=
+    map (fun h => (N.of_nat h * HF g, hord g)) (seq 0 (nn (fr / HF g))).
+  Definition free_seq_small (fr : N) : list (N * nat) :=
+    map (fun i => (fr / HF g * HF g + N.of_nat i, 0%nat)) (seq 0 (nn (fr mod HF g))).
+  Definition free_seq (fr : N) : list (N * nat) := free_seq_huge fr ++ free_seq_small fr.
+
+  (* stage 1: the first m huge frames have been freed *)
+  Definition st1_ent (fr m : N) (h : nat) : N :=
+    if N.of_nat h <? m then HF g else if N.of_nat h <? fr / HF g then MARK else 0.
+  Definition st1 (fr m : N) : lower :=
+    {| frames := fr; bfs := reserve_all_bfs g fr;
+       ents := map (st1_ent fr m) (seq 0 (nn (ntab g fr * THUGE g))) |}.
+
+  Lemma li_st1_0 fr : st1 fr 0 = reserve_all g fr.
+  Proof.
+    unfold st1, reserve_all, reserve_all_ents. f_equal. apply map_ext. intros h. unfold st1_ent.
+    destruct (N.ltb_spec (N.of_nat h) 0); [lia | reflexivity].
+  Qed.
+
+  Lemma li_has_tree l fr f : frames l = fr -> length (ents l) = nn (ntab g fr * THUGE g) -> f < fr ->
+    has_tree g l (f / TF g) = true.
+  Proof.
+    intros _ Hl Hf. unfold has_tree. rewrite Hl. unfold nn. rewrite N2Nat.id.
+    pose proof (frame_lt_ntab g fr f Hf). apply N.leb_le. pose proof (THUGE_pos g). nia.
+  Qed.
+
+  Lemma li_st1_step fr m : m < fr / HF g ->
+    lower_put g (st1 fr m) (m * HF g) (hord g) = (Ok tt, st1 fr (m + 1)).
+  Proof.
+    intros Hm. pose proof (HF_pos g) as HP. pose proof (THUGE_pos g) as TP.
+    pose proof (li_full_le g fr m Hm) as Hfull.
+    assert (Hlen : length (ents (st1 fr m)) = nn (ntab g fr * THUGE g)).
+    { unfold st1; cbn [ents]. rewrite map_length, seq_length. reflexivity. }
+    unfold lower_put. rewrite (li_has_tree (st1 fr m) fr (m * HF g) eq_refl Hlen ltac:(lia)). cbn [negb].
+    rewrite Nat.leb_refl, Nat.sub_diag. change (pow2 0) with 1.
+    rewrite N.div_mul by lia.
+    pose proof (N.mod_lt m (THUGE g) ltac:(lia)) as Hmod.
+    destruct (N.ltb_spec (THUGE g) (m mod THUGE g + 1)); [lia|].
+    change (nn 1) with 1%nat. cbn [cas_all].
+    assert (Hidx : (nn m < nn (ntab g fr * THUGE g))%nat).
+    { pose proof (li_full_lt_nbf g fr m Hm). pose proof (nbf_le_ntab g fr). unfold nn. lia. }
+    assert (Hnth : nth_error (ents (st1 fr m)) (nn m) = Some MARK).
+    { unfold st1; cbn [ents]. rewrite li_nth_map_seq. destruct (Nat.ltb_spec (nn m) (nn (ntab g fr * THUGE g))); [|lia].
+      cbn [Nat.add]. unfold st1_ent, nn. rewrite N2Nat.id.
+      destruct (N.ltb_spec m m); [lia|]. destruct (N.ltb_spec m (fr / HF g)); [reflexivity | lia]. }
+    rewrite Hnth, N.eqb_refl. f_equal. unfold st1. cbn [frames bfs ents]. f_equal.
+    apply bp_nth_error_ext. intros j. rewrite bp_nth_error_upd, map_length, seq_length, !li_nth_map_seq. cbn [Nat.add].
+    unfold st1_ent.
+    destruct (Nat.eqb_spec (nn m) j) as [<-|Hne].
+    - destruct (Nat.ltb_spec (nn m) (nn (ntab g fr * THUGE g))); [|lia]. unfold nn. rewrite N2Nat.id.
+      destruct (N.ltb_spec m (m + 1)); [reflexivity | lia].
+    - destruct (Nat.ltb_spec j (nn (ntab g fr * THUGE g))); [|reflexivity]. f_equal.
+      destruct (N.ltb_spec (N.of_nat j) m), (N.ltb_spec (N.of_nat j) (m + 1)); try reflexivity; unfold nn in Hne; lia.
+  Qed.
+
+  Lemma li_stage1 fr : forall n a, (a + n <= nn (fr / HF g))%nat ->
+    fold_left put_step (map (fun h => (N.of_nat h * HF g, hord g)) (seq a n)) (Ok tt, st1 fr (N.of_nat a)) =
+    (Ok tt, st1 fr (N.of_nat (a + n))).
+  Proof.
+    induction n as [|n IH]; intros a Ha; cbn [seq map fold_left].
+    - rewrite Nat.add_0_r. reflexivity.
+    - unfold put_step at 2. cbn [fst snd]. rewrite li_st1_step by (unfold nn in Ha; lia).
+      replace (N.of_nat a + 1) with (N.of_nat (S a)) by lia. rewrite IH by lia.
+      replace (S a + n)%nat with (a + S n)%nat by lia. reflexivity.
+  Qed.
+
+  (* stage 2: the first i frames of the partial huge frame hp = fr / HF have been freed *)
+  Definition st2 (fr i : N) (rows : list N) : lower :=
+    {| frames := fr; bfs := upd (reserve_all_bfs g fr) (nn (fr / HF g)) rows;
+       ents := upd (ents (st1 fr (fr / HF g))) (nn (fr / HF g)) i |}.
+  Definition st2_rows (i : N) (rows : list N) : Prop :=
+    rows_ok g rows /\ forall t, N.testbit (rows_bits rows) t = (i <=? t) && (t <? HF g).
+
+  Lemma li_st1_ents_nth fr m j : nth_error (ents (st1 fr m)) j =
+    if (j <? nn (ntab g fr * THUGE g))%nat then Some (st1_ent fr m j) else None.
+  Proof. unfold st1; cbn [ents]. rewrite li_nth_map_seq. reflexivity. Qed.
+
+  Lemma li_rbfs_nth fr j : nth_error (reserve_all_bfs g fr) j =
+    if (j <? nn (nbf g fr))%nat then Some (if N.of_nat j <? fr / HF g then zeros_bf g else ones_bf g) else None.
+  Proof. unfold reserve_all_bfs. rewrite li_nth_map_seq. reflexivity. Qed.
+
+  Lemma li_st2_0 fr : st2 fr 0 (ones_bf g) = st1 fr (fr / HF g).
+  Proof.
+    unfold st2, st1. cbn [ents]. f_equal.
+    - apply li_upd_id. rewrite li_rbfs_nth. destruct (Nat.ltb_spec (nn (fr / HF g)) (nn (nbf g fr))); [|right; reflexivity].
+      left. unfold nn. rewrite N2Nat.id. destruct (N.ltb_spec (fr / HF g) (fr / HF g)); [lia | reflexivity].
+    - apply li_upd_id. rewrite li_nth_map_seq.
+      destruct (Nat.ltb_spec (nn (fr / HF g)) (nn (ntab g fr * THUGE g))); [|right; reflexivity].
+      left. cbn [Nat.add]. unfold st1_ent, nn. rewrite N2Nat.id.
+      destruct (N.ltb_spec (fr / HF g) (fr / HF g)); [lia | reflexivity].
+  Qed.
+
+  Lemma li_ones_rows : st2_rows 0 (ones_bf g).
+  Proof. split; [apply li_ones_ok; exact WF|]. intros t. rewrite (li_ones_bits g WF). destruct (N.leb_spec 0 t); [reflexivity | lia]. Qed.
+
+  Lemma li_st2_step fr i rows : i < fr mod HF g -> st2_rows i rows ->
+    exists rows', st2_rows (i + 1) rows' /\
+      lower_put g (st2 fr i rows) (fr / HF g * HF g + i) 0 = (Ok tt, st2 fr (i + 1) rows').
+  Proof.
+    intros Hi (Hok & Hbits). pose proof (HF_pos g) as HP. pose proof (HF_lt_MARK g WF) as HM.
+    pose proof (N.div_mod fr (HF g) ltac:(lia)) as D. pose proof (N.mod_lt fr (HF g) ltac:(lia)) as Mr.
+    set (hp := fr / HF g) in *.
+    assert (Hhp : hp < nbf g fr).
+    { replace hp with ((hp * HF g) / HF g) by (apply N.div_mul; lia). apply frame_lt_nbf. clear - D Hi. nia. }
+    pose proof (nbf_le_ntab g fr) as Hnt.
+    assert (Hlen : length (ents (st2 fr i rows)) = nn (ntab g fr * THUGE g)).
+    { unfold st2, st1; cbn [ents]. rewrite upd_length, map_length, seq_length. reflexivity. }
+    destruct (li_divmod g hp i ltac:(lia)) as (Ediv & Emod).
+    unfold lower_put. assert (Hlt : hp * HF g + i < fr) by (clear - D Hi; nia).
+    rewrite (li_has_tree (st2 fr i rows) fr (hp * HF g + i) eq_refl Hlen Hlt). cbn [negb].
+    destruct WF as (H6 & _). destruct (Nat.leb_spec (hord g) 0); [lia|].
+    rewrite Ediv.
+    assert (He : ent (st2 fr i rows) hp = Some i).
+    { unfold ent, st2; cbn [ents]. apply nth_error_upd_same. unfold st1; cbn [ents].
+      rewrite map_length, seq_length. unfold nn. lia. }
+    assert (Hb : bf (st2 fr i rows) hp = Some rows).
+    { unfold bf, st2; cbn [bfs]. apply nth_error_upd_same. unfold reserve_all_bfs.
+      rewrite map_length, seq_length. unfold nn. lia. }
+    rewrite He. rewrite (lp_e_huge_false g WF i) by lia.
+    assert (Ef : e_free i = i) by (unfold e_free; rewrite (lp_e_huge_false g WF i) by lia; reflexivity).
+    rewrite Ef. change (pow2 0) with 1. destruct (N.leb_spec (i + 1) (HF g)); [|lia].
+    unfold put_small. rewrite Ediv, Hb.
+    pose proof (bp_toggle_true g WF rows (hp * HF g + i) 0 Hok ltac:(lia) (N.mod_1_r _)) as P.
+    rewrite Emod in P. change (pow2 0) with 1 in P.
+    destruct (bf_toggle g rows (hp * HF g + i) 0 true) as [rows'|]; cbn [toggle_true_post] in P.
+    2:{ exfalso. apply P. intros t Ht. rewrite Hbits.
+        destruct (N.leb_spec i t), (N.ltb_spec t (HF g)); try reflexivity; lia. }
+    destruct P as (Hok' & _ & Pnew).
+    exists rows'. split.
+    - split; [exact Hok'|]. intros t. rewrite Pnew, Hbits.
+      destruct (N.leb_spec i t), (N.ltb_spec t (HF g)), (N.ltb_spec t (i + 1)), (N.leb_spec (i + 1) t);
+        cbn [andb negb]; try reflexivity; lia.
+    - rewrite ent_set_bf, He. unfold e_inc. change (pow2 0) with 1. rewrite Ef, (lp_e_huge_false g WF i) by lia. cbn [negb andb].
+      destruct (N.leb_spec (i + 1) (HF g)); [|lia].
+      subst hp. f_equal. unfold set_ent, set_bf, st2. cbn [frames bfs ents]. rewrite !lp_upd_upd. reflexivity.
+  Qed.
+
+  Lemma li_stage2 fr : forall n a rows, (a + n <= nn (fr mod HF g))%nat -> st2_rows (N.of_nat a) rows ->
+    exists rows', st2_rows (N.of_nat (a + n)) rows' /\
+      fold_left put_step (map (fun i => (fr / HF g * HF g + N.of_nat i, 0%nat)) (seq a n)) (Ok tt, st2 fr (N.of_nat a) rows) =
+      (Ok tt, st2 fr (N.of_nat (a + n)) rows').
+  Proof.
+    induction n as [|n IH]; intros a rows Ha Hr; cbn [seq map fold_left].
+    - rewrite Nat.add_0_r. exists rows. split; [assumption | reflexivity].
+    - replace (a + S n)%nat with (S a + n)%nat by lia. unfold put_step at 2. cbn [fst snd].
+      destruct (li_st2_step fr (N.of_nat a) rows ltac:(unfold nn in Ha; lia) Hr) as (rows1 & Hr1 & ->).
+      replace (N.of_nat a + 1) with (N.of_nat (S a)) in * by lia.
+      destruct (IH (S a) rows1 ltac:(lia) Hr1) as (rows' & Hr' & ->).
+      exists rows'. split; [assumption | reflexivity].
+  Qed.
+
+  Lemma li_st2_final fr rows : st2_rows (fr mod HF g) rows -> st2 fr (fr mod HF g) rows = free_all g fr.
+  Proof.
+    intros (Hok & Hbits). pose proof (HF_pos g) as HP.
+    pose proof (N.div_mod fr (HF g) ltac:(lia)) as D. pose proof (N.mod_lt fr (HF g) ltac:(lia)) as Mr.
+    unfold st2, free_all. f_equal.
+    - (* bitfields *)
+      apply bp_nth_error_ext. intros j. rewrite bp_nth_error_upd. unfold free_all_bfs, reserve_all_bfs.
+      rewrite map_length, seq_length, !li_nth_map_seq. cbn [Nat.add].
+      destruct (Nat.ltb_spec j (nn (nbf g fr))) as [Hj|Hj].
+      + destruct (Nat.eqb_spec (nn (fr / HF g)) j) as [<-|Hne].
+        * f_equal. unfold nn. rewrite N2Nat.id. destruct (N.ltb_spec (fr / HF g) (fr / HF g)); [lia|].
+          apply (li_rows_bits_inj rows (part_bf g (fr - fr / HF g * HF g))); [exact Hok | apply (li_part_ok g) |].
+          intros t. rewrite Hbits, (li_part_bits g WF). replace (fr - fr / HF g * HF g) with (fr mod HF g) by lia.
+          reflexivity.
+        * f_equal. destruct (N.ltb_spec (N.of_nat j) (fr / HF g)) as [|Hge]; [reflexivity|]. exfalso.
+          destruct (li_partial g fr (N.of_nat j) ltac:(unfold nn in Hj; lia) ltac:(lia)) as (E & _).
+          unfold nn in Hne. lia.
+      + destruct (Nat.eqb_spec (nn (fr / HF g)) j); reflexivity.
+    - (* entries *)
+      apply bp_nth_error_ext. intros j. rewrite bp_nth_error_upd. unfold st1, free_all_ents. cbn [ents].
+      rewrite map_length, seq_length, !li_nth_map_seq. cbn [Nat.add]. unfold st1_ent.
+      destruct (Nat.ltb_spec j (nn (ntab g fr * THUGE g))) as [Hj|Hj].
+      + destruct (Nat.eqb_spec (nn (fr / HF g)) j) as [<-|Hne].
+        * f_equal. unfold nn. rewrite N2Nat.id. lia.
+        * f_equal. destruct (N.ltb_spec (N.of_nat j) (fr / HF g)) as [Hlt|Hge].
+          -- pose proof (li_full_le g fr _ Hlt). lia.
+          -- assert (fr / HF g + 1 <= N.of_nat j) by (unfold nn in Hne; lia).
+             assert (fr <= N.of_nat j * HF g) by nia. lia.
+      + destruct (Nat.eqb_spec (nn (fr / HF g)) j); reflexivity.
+  Qed.
+
+  (* B3 *)
+  Theorem free_seq_from_reserve_all fr : put_all (reserve_all g fr) (free_seq fr) = (Ok tt, free_all g fr).
+  Proof.
+    unfold put_all, free_seq. rewrite fold_left_app.
+    rewrite <- li_st1_0. change (st1 fr 0) with (st1 fr (N.of_nat 0)).
+    unfold free_seq_huge. rewrite (li_stage1 fr _ 0%nat) by lia. cbn [Nat.add].
+    unfold nn at 1. rewrite N2Nat.id. rewrite <- li_st2_0.
+    unfold free_seq_small.
+    destruct (li_stage2 fr (nn (fr mod HF g)) 0%nat (ones_bf g) ltac:(lia) li_ones_rows) as (rows' & Hr & E).
+    cbn [Nat.add] in *. change (N.of_nat 0) with 0 in E. rewrite E.
+    unfold nn in *. rewrite N2Nat.id in *. f_equal. apply li_st2_final. exact Hr.
+  Qed.
+
+  Corollary free_seq_all_free fr :
+    fst (put_all (reserve_all g fr) (free_seq fr)) = Ok tt /\
+    o_alloc (abs g (snd (put_all (reserve_all g fr) (free_seq fr)))) = 0 /\
+    lower_stats g (snd (put_all (reserve_all g fr) (free_seq fr))) = lower_stats g (free_all g fr).
+  Proof. rewrite free_seq_from_reserve_all. cbn [fst snd]. split; [reflexivity|]. split; [apply (free_all_alloc g WF) | reflexivity]. Qed.
+End FreeSeq.
+
+Example free_seq_ex :
+  length (free_seq g9 5000) = 401%nat /\ put_all g9 (reserve_all g9 5000) (free_seq g9 5000) = (Ok tt, free_all g9 5000) /\
+  put_all g9 (reserve_all g9 0) (free_seq g9 0) = (Ok tt, free_all g9 0) /\
+  put_all g9 (reserve_all g9 2049) (free_seq g9 2049) = (Ok tt, free_all g9 2049) /\
+  put_all g9 (reserve_all g9 511) (free_seq g9 511) = (Ok tt, free_all g9 511).
+Proof. vm_compute. repeat split. Qed.
+
+Print Assumptions free_seq_from_reserve_all.
